@@ -774,8 +774,8 @@ class Exporter {
         }
         if (inst && !g_inst)
             return;
-        if (!inst && !g_pattern)
-            return;
+        if (!inst && !g_pattern && dependent)
+            return;   // --no-pattern drops uninstantiated templates only; ordinary functions belong to both views
 
         FnCtx F;
         J     j;
